@@ -10,17 +10,21 @@ from store import span, NOPAR, universe_ingest
 BIG = 50        # "larger than the stream"
 
 
-def ingest_streams(maxlen):
+def ingest_streams(maxlen, base_only=False, only_len=None):
     """every stream over the C10 universe (3 ids x 2 payload versions x parent placements) up to maxlen spans"""
     u = universe_ingest()
+    if base_only:
+        u = [x for x in u if x["job"] == "j1"]
     for n in range(1, maxlen + 1):
         for st in itertools.product(u, repeat=n):
+            if only_len is not None and n != only_len:
+                continue
             yield list(st)
 
 
-def c10_exhaustive(maxlen, batches=(1, 2, 3, BIG)):
+def c10_exhaustive(maxlen, batches=(1, 2, 3, BIG), base_only=False, only_len=None):
     out = []
-    for st in ingest_streams(maxlen):
+    for st in ingest_streams(maxlen, base_only, only_len):
         for b in batches:
             if b != BIG and b > len(st) + 1:
                 continue
